@@ -103,14 +103,25 @@ func (g *Gen) funcID(name string) string {
 	return fmt.Sprint(id)
 }
 
+// valPrefixOf: values of a callee translated in place carry the prefix of their inlining instance.
+func (g *Gen) valPrefixOf(v ssa.Value) string {
+	if len(g.inlStack) == 0 {
+		return ""
+	}
+	if v.Parent() == g.fn {
+		return g.valPrefix
+	}
+	return ""
+}
+
 func (g *Gen) valName(v ssa.Value) string {
 	switch v := v.(type) {
 	case *ssa.Parameter:
-		return "a_" + sanitize(v.Name())
+		return g.valPrefixOf(v) + "a_" + sanitize(v.Name())
 	case *ssa.FreeVar:
 		return "fv_" + sanitize(v.Name())
 	}
-	return "v_" + sanitize(v.Name())
+	return g.valPrefixOf(v) + "v_" + sanitize(v.Name())
 }
 
 // val returns the SMT term of an SSA value.
